@@ -100,7 +100,11 @@ def scenario(c: Any, P: dict) -> dict:
                     elif k == "rel":
                         d = s.schedule_relative(op[2], make(i))
                     else:
-                        d = s.schedule_absolute(datetime.datetime.fromtimestamp(t0 + op[2], tz=D.UTC), make(i))
+                        when = datetime.datetime.fromtimestamp(t0 + op[2], tz=D.UTC)
+                        hours = (None, -3, 5.5)[i % 3]      # the same instant written in another time zone
+                        if hours is not None:
+                            when = when.astimezone(datetime.timezone(datetime.timedelta(hours=hours)))
+                        d = s.schedule_absolute(when, make(i))
                     disps[i] = d
                     c.log("sched_ret", i)
                 except DisposedException:
